@@ -105,6 +105,9 @@ class World:
                     r = "tainted"
                 else:
                     r = next((c for c, x in fresh.items() if x == ms), "other")
+                    # the payload of an entry is everything but its key and checksum: language and line total too
+                    if r != "other" and (v.get("language") != "Python" or v.get("loc") != sum(m[5] for m in ms)):
+                        r = "other"
                 ent[p] = {"sum": s, "res": r}
             ver = "tool" if d.get("version") == tool_version() else "foreign"
             honest = all(e["res"] == e["sum"] for e in ent.values())
@@ -124,10 +127,55 @@ class World:
         cache = self.abstract_cache()
         st = {"fs": fs, "excl": self.excluded(), "cache": cache, "outcome": self.outcome,
               "report": {p: "absent" for p in PATHS}, "reused": []}
+        st["complete"] = True
         if after_scan and cache["kind"] == "ok":
             st["report"] = {p: cache["ent"][p]["res"] for p in PATHS}
             st["reused"] = sorted(p for p in PATHS if cache["ent"][p]["res"] == "tainted")
+            st["complete"] = self.cache_is_complete_report()
         return st
+
+    def cache_is_complete_report(self):
+        """Is the cache file on disk the complete document a from-scratch scan of the tree would write (up to
+        identifier and timestamp)?  Every section counts: totals, tree, profiles, timestamp, not only `files`."""
+        from codelimit.common.Configuration import Configuration
+        from codelimit.common.report.Report import Report
+        from codelimit.common.report.ReportWriter import ReportWriter
+        from codelimit.common.Scanner import scan_path
+
+        try:
+            got = json.loads(self.cache_file.read_text())
+        except Exception:  # noqa: BLE001
+            return False
+        os.chdir(self.root)
+        Configuration.exclude = []
+        Configuration.load(self.root)
+        cb = scan_path(self.root)
+        cb.aggregate()
+        want = json.loads(ReportWriter(Report(cb, Configuration.repository)).to_json())
+        for d in (got, want):
+            if not isinstance(d, dict) or not isinstance(d.get("timestamp"), str) or not isinstance(d.get("uuid"), str):
+                return False
+            d.pop("timestamp")
+            d.pop("uuid")
+        # measurements may legitimately carry a probe's taint; compare structure and everything else
+        return got == want or self._same_but_measurements(got, want)
+
+    @staticmethod
+    def _same_but_measurements(a, b):
+        try:
+            fa, fb = a["codebase"]["files"], b["codebase"]["files"]
+            if list(fa) != list(fb):
+                return False
+            for k in fa:
+                if {x: y for x, y in fa[k].items() if x not in ("measurements", "profile", "loc")} != {x: y for x, y in fb[k].items() if x not in ("measurements", "profile", "loc")}:
+                    return False
+                if not isinstance(fa[k].get("measurements"), list) or not isinstance(fa[k].get("profile"), list):
+                    return False
+            ka = {k: v for k, v in a.items() if k != "codebase"}
+            kb = {k: v for k, v in b.items() if k != "codebase"}
+            return ka == kb and set(a["codebase"]) == set(b["codebase"]) and set(a["codebase"]["tree"]) == set(b["codebase"]["tree"]) and set(a["codebase"]["totals"]) == set(b["codebase"]["totals"])
+        except Exception:  # noqa: BLE001
+            return False
 
     # ---- steps ----
     def step(self, op):
